@@ -60,6 +60,13 @@ TResolveHist ==
   /\ \A d \in Dids : \A T \in 1..Len(ledger) :
         /\ last'.times[d][T] = Trace[l].times[d][T]
         /\ last'.versions[d][T] = Trace[l].versions[d][T]
+        \* an ANCHORED DID answers the same when asked for in long form (no fall-back to the embedded initial state)
+        /\ (\E o \in store : o.d = d /\ o.sh.ty = "C") =>
+              /\ last'.times[d][T] = Trace[l].timesLong[d][T]
+              /\ last'.versions[d][T] = Trace[l].versionsLong[d][T]
+  \* cuts that select nothing (version time before 1970; unknown version id) are errors, in short and in long form
+  /\ \A d \in Dids : (\E o \in store : o.d = d /\ o.sh.ty = "C") =>
+        \A k \in DOMAIN Trace[l].odd[d] : Trace[l].odd[d][k] = View(NoState)
 
 TReset ==
   /\ IsEv("Reset")
